@@ -460,6 +460,37 @@ def checkClassUnit (classes : List ClassInfo) (kof : Nat → Option UnitKernels)
       outsAreConv (if rt then convExpr k f t else convStaticExpr k f t) e.fm nums 0
   | .bad => false
 
+/-! ### The same formula in every format -/
+
+namespace Expr
+/-- The expression with every format tag replaced by binary64 and every format conversion removed:
+what is left is the formula. Two traces with equal skeletons compute the same real function. -/
+def skeleton : Expr → Expr
+  | var i _ => var i .f64
+  | lit _ s m e => lit .f64 s m e
+  | pi _ m e => pi .f64 m e
+  | un op _ a => un op .f64 (skeleton a)
+  | bin op _ a b => bin op .f64 (skeleton a) (skeleton b)
+  | powi _ n a => powi .f64 n (skeleton a)
+  | cast _ a => skeleton a
+  | uninit _ => uninit .f64
+end Expr
+
+def Out.skeleton : Out → Out
+  | .num e => .num e.skeleton
+  | .str parts => .str (parts.map fun p => match p with | .num e => .num e.skeleton | t => t)
+  | o => o
+
+def DTree.skeleton : DTree → DTree
+  | .leaf outs => .leaf (outs.map Out.skeleton)
+  | .node op a b y n => .node op a.skeleton b.skeleton (skeleton y) (skeleton n)
+  | .unexplored => .unexplored
+
+/-- The `float` and `long double` instantiations of an entry compute the same formula as the
+`double` one (they differ only in format tags and format conversions). -/
+def sameFormula (t : Entry × Entry × Entry) : Bool :=
+  t.1.tree.skeleton.beq t.2.1.tree.skeleton && t.2.2.tree.skeleton.beq t.2.1.tree.skeleton
+
 /-- No entry point reads a default-initialised (indeterminate) number. -/
 def checkNoUninit (e : Entry) : Bool := !e.tree.readsUninit
 
